@@ -238,7 +238,7 @@ func propC04(c *Ctx) {
 			o.Sites++
 			pos := p.HasFact(len(p.Events), func(a *Term, pol bool) bool { return pol && a.Key() == "(sdk.Coin).IsPositive(msg.Amount)" })
 			valid := p.HasFact(len(p.Events), func(a *Term, pol bool) bool { return pol && a.Key() == "(sdk.Coin).IsValid(msg.Amount)" })
-			toNonEmpty := p.HasFact(len(p.Events), func(a *Term, pol bool) bool { return !pol && eqAtom(a, "builtin.len(msg.To)", "0") })
+			toNonEmpty := p.HasFact(len(p.Events), func(a *Term, pol bool) bool { return !pol && eqAtom(a, "msg.To", `""`) })
 			if !pos || !valid || !toNonEmpty {
 				o.Fail(c.W.Pos(v2.Pos()), fmt.Sprintf("L2 accepts a withdrawal L1 would reject: positive=%v valid=%v non-empty recipient=%v", pos, valid, toNonEmpty), c.Dump(p, -1))
 			}
@@ -340,6 +340,44 @@ func propC08(c *Ctx) {
 			if !coinsAre(p.Events[burns[0]].Call.Args[3], "req.Amount") || strip(views[0].Attrs["amount"]).Key() != "(sdkmath.Int).String(req.Amount.Amount)" || strip(views[0].Attrs["denom"]).Key() != "req.Amount.Denom" {
 				o3.Fail(c.evPos(&p.Events[burns[0]]), "burned coins and announced (amount, denom) differ", c.Dump(p, -1))
 			}
+		}
+		// refund leg (failed deposit): what is reclaimed and burned is exactly the deposited coin,
+		// and that is the amount the refund withdrawal announces - never more, never less
+		fd := childHandler(c, "FinalizeTokenDeposit")
+		o5 := c.Ob("C08.R1", "refund leg: a failed deposit that was minted is reclaimed and burned for exactly NewCoins(req.Amount), the amount its refund withdrawal announces")
+		for _, p := range c.Paths(fd, PO{Params: hParams, NoInline: []string{".Validate", "checkBridgeExecutorPermission", "handleBridgeHook", "safeDepositToken", "setDenomMetadata", "GetBaseDenom"}}) {
+			o5.Paths++
+			if !p.OK() || p.Panic {
+				continue
+			}
+			burns := p.Find(func(ev *Event) bool { return ev.Kind == EvCall && isCall(ev, "BankKeeper).BurnCoins") })
+			takes := p.Find(func(ev *Event) bool {
+				return ev.Kind == EvCall && isCall(ev, "BankKeeper).SendCoinsFromAccountToModule")
+			})
+			if len(burns) == 0 && len(takes) == 0 {
+				continue
+			}
+			o5.Sites++
+			if len(burns) != 1 || len(takes) != 1 {
+				o5.Fail(c.W.Pos(fd.Pos()), fmt.Sprintf("refund path with %d reclaim and %d burn calls (want 1 and 1)", len(takes), len(burns)), c.Dump(p, -1))
+				continue
+			}
+			if !coinsAre(p.Events[burns[0]].Call.Args[3], "req.Amount") || !coinsAre(p.Events[takes[0]].Call.Args[4], "req.Amount") {
+				o5.Fail(c.evPos(&p.Events[burns[0]]), "refund reclaims "+trunc(p.Events[takes[0]].Call.Args[4].Key(), 100)+" and burns "+trunc(p.Events[burns[0]].Call.Args[3].Key(), 100)+", want NewCoins(req.Amount) for both", c.Dump(p, -1))
+			}
+			_, views, _ := emitted(p)
+			announced := false
+			for _, v := range views {
+				if v.Type == "initiate_token_withdrawal" {
+					announced = strip(v.Attrs["amount"]).Key() == "(sdkmath.Int).String(req.Amount.Amount)" && strip(v.Attrs["denom"]).Key() == "req.Amount.Denom"
+				}
+			}
+			if !announced {
+				o5.Fail(c.W.Pos(fd.Pos()), "the burned refund is not announced by a withdrawal event carrying (req.Amount.Denom, req.Amount.Amount)", c.Dump(p, -1))
+			}
+		}
+		if o5.Sites == 0 {
+			o5.Fail(c.W.Pos(fd.Pos()), "no refund path with a burn found (floor 1)", nil)
 		}
 		// release leg: the amount paid is the amount hashed into the leaf (C03.R2)
 		fw := hostHandler(c, "FinalizeTokenWithdrawal")
